@@ -217,7 +217,7 @@ pub fn run_replica(ops: &[SOp], local: &mut Local) -> Check {
 
 /// (3) crash inside make_read_only: every journal prefix of histories containing the call.
 pub fn run_crash(ops: &[Op], seed: u64, local: &mut Local) -> Check {
-    let cfg = CrashCfg { torn: false, torn_only: false, recurse_every: None, suffix: true, check_contig: false, seed };
+    let cfg = CrashCfg { torn: false, torn_only: false, recurse_every: None, suffix: true, check_contig: false, seed, suffix_variant: 0 };
     local.evals = local.evals.saturating_sub(1);
     let rec = record(ops)?;
     let mut stats = CrashStats { recoveries: 0 };
